@@ -373,6 +373,11 @@ class Mir:
                 if line.startswith('fn ') and cur is None:
                     hdr = line.rstrip('\n'); cur = []; lineno = i + 1
                     continue
+                if line.startswith('const ') and cur is None and line.rstrip().endswith('= {') and '::promoted[' in line:
+                    mm = re.match(r'^const (.*::promoted\[\d+\]): (.*) = \{$', line.rstrip())
+                    if mm:
+                        hdr = 'fn %s() -> %s {' % (mm.group(1), mm.group(2)); cur = []; lineno = i + 1
+                        continue
                 if cur is not None:
                     if line.startswith('}'):
                         fn = Fn(hdr, cur, lineno)
@@ -435,6 +440,7 @@ class Mir:
         if self._index is not None: return self._index
         idx = {}
         for name, fn in self.fns.items():
+            if '::promoted[' in name: continue
             if fn.impl_at and '{closure' not in name:
                 trait, ty, _ = self.impl_info(*fn.impl_at)
                 tail = name[name.index('>::', name.index('<impl at')) + 3:] if '>::' in name else ''
